@@ -254,6 +254,8 @@ class ItemCreateSpawnEgg(EventMixin, ItemMixin):
         spawn_egg = mob_type + "_spawn_egg"
         item_id = self.args["itemId"]
         on_place = self.args["onPlace"]
+        # `create_item` reads the item type from the arguments
+        self.args["itemType"] = spawn_egg
 
         self.add_event(
             "used:" + spawn_egg,
